@@ -45,6 +45,10 @@ def retargetCore (old : Int) (actual tMin tMax T : Int) (powLimit : Int) : Int :
 /-- maximum distance of a header time stamp into the future (seconds) -/
 def MAX_TIME_OFFSET : Int := 7200
 
+/-- network-adjusted time: the local clock is never moved by 70 minutes or more; at most 200 samples -/
+def MAX_ALLOWED_OFFSET : Int := 4200
+def MAX_MEDIAN_TIME_ENTRIES : Nat := 200
+
 /-- subsidy at a non-negative height -/
 def subsidy (height interval : Nat) : Nat :=
   if interval = 0 then BASE_SUBSIDY else BASE_SUBSIDY / 2^(height / interval)
